@@ -486,7 +486,27 @@ def run_family(name, tier, seed, work):
         return run_cases(name, tier, seed, work)
     out = os.path.join(work, name + '.tlc.out')
     log('[%s] E1+emit: TLC on %s (tier %s)' % (name, fam['module'], tier))
-    res = run_tlc(fam['module'], family_cfg(fam, tier), work, out, fam['timeout'][tier])
+    # Development aid for campaigns that run one unchanged specification against many changed trees (seeded changes,
+    # mutants): with VERIF_EDGECACHE set, TLC's output for (specification files, configuration) is kept and reused.
+    # Never set by a registered command: a check always runs TLC itself.
+    cache = None
+    if os.environ.get('VERIF_EDGECACHE'):
+        hh = hashlib.sha1()
+        for fn in sorted(os.listdir(SPEC)):
+            if fn.endswith('.tla'):
+                hh.update(open(os.path.join(SPEC, fn), 'rb').read())
+        hh.update(family_cfg(fam, tier).encode())
+        cache = os.path.join(os.environ['VERIF_EDGECACHE'], name + '-' + tier + '-' + hh.hexdigest()[:16])
+    if cache and os.path.exists(cache + '.json'):
+        shutil.copyfile(cache + '.out', out)
+        res = json.load(open(cache + '.json'))
+    else:
+        res = run_tlc(fam['module'], family_cfg(fam, tier), work, out, fam['timeout'][tier])
+        if cache and not (res['violated'] or res['errors'] or res['rc'] != 0):
+            os.makedirs(os.path.dirname(cache), exist_ok=True)
+            shutil.copyfile(out, cache + '.out.tmp%d' % os.getpid())
+            os.replace(cache + '.out.tmp%d' % os.getpid(), cache + '.out')
+            json.dump(res, open(cache + '.json', 'w'))
     if res['violated'] or res['errors'] or res['rc'] != 0:
         raise Undecided('TLC did not verify the bounded model of %s (rc=%s violated=%s errors=%s)\n%s' % (
             name, res['rc'], res['violated'], res['errors'][:3], '\n'.join(res['tail'][-25:])))
